@@ -168,6 +168,16 @@ def generate(seed, tier, enlarged=False):
         {'kind': 'fun', 'f': 'merge', 'v': {'$dict': {'a': 1, 'b': 2}}, 'u': {'$dict': {'b': 3, 'c': 4}}},
         {'kind': 'fun', 'f': 'merge', 'v': {'$dict': {'a': {'a': 1}, 'b': 2}}, 'u': {'$dict': {'a': {'b': 5}}}},
     ]
+    # corpus: successive merge updates that meet in a nested dict which an earlier update introduced
+    # (the store then holds the first update's own sub-dict; a merge in place rewrites that update object)
+    def mleaf(v):
+        return {'$leaf': {'updater': 'merge', 'kind': 'dict', 'units': None, 'default': {'$dict': {}}, 'value': {'$dict': v}}}
+    cases.append({'kind': 'apply', 'store': {'a': mleaf({})},
+                  'ups': [{'$branch': {'a': {'$dict': {'c': {'d': 1}}}}}, {'$branch': {'a': {'$dict': {'c': {'e': 9}}}}}]})
+    cases.append({'kind': 'apply', 'store': {'b': {'$br': {'a': mleaf({'e': 2})}}},
+                  'ups': [{'$branch': {'b': {'$branch': {'a': {'$dict': {'c': {'d': {'a': 1}}}}}}}},
+                          {'$branch': {'b': {'$multi': [{'$branch': {'a': {'$dict': {'c': {'d': {'b': 2}}}}}},
+                                                        {'$branch': {'a': {'$dict': {'c': {'e': 3}}}}}]}}}]})
     for i in range(n):
         if i % 3 == 0:
             f = rng.choice(UPDATERS)
@@ -357,11 +367,15 @@ def run_impl(c):
     store = Store(dec_store(c['store'], np, units))
     mutated = False
     try:
+        handed = []
         for u in c['ups']:
             pu = dec_update(u, np, units)
             pu0 = copy.deepcopy(pu)
+            handed.append((pu, pu0))
             store.apply_update(pu)
-            if not same(pu, pu0, np):
+            # no update object handed in so far may have changed (a later update can reach an
+            # earlier one through a value the store kept by reference)
+            if not all(same(a, a0, np) for a, a0 in handed):
                 mutated = True
         return {'ok': dump(store, np), 'update_mutated': mutated}
     except Exception as e:
